@@ -13,6 +13,7 @@ import TypedpyModel.Sem.Entry
 import TypedpyModel.Lemmas.Formats
 import TypedpyModel.Sem.Decimal
 import TypedpyModel.Sem.EntryD
+import TypedpyModel.Lemmas.BridgeWf
 namespace Typedpy.C01
 open Typedpy
 
@@ -380,6 +381,57 @@ theorem formatted_example :
     ∧ wellFormed O cls (.inst "A" [("ips", .list [.str "1.2.3"])]) = false
     ∧ wellFormed O cls (.inst "A" [("ips", .list []), ("tag", .str "abcd")]) = false := by
   decide
+
+/-! ### classes as the class-definition model records them (Sem/Define.lean → Sem/DefineBridge.lean) -/
+
+/-- the declaration a class record denotes is well-formed (`wfDecl`) as soon as the record is what
+    `StructMeta.__new__` leaves behind: distinct member names, the signature demands only declared fields, and the
+    members' own declarations are well-formed -/
+theorem bridge_wfDecl (c : ClassDef) (ord acc : List String) (hk : KeysNodup c.allFields)
+    (hreq : ∀ n ∈ c.sig.req, n ∈ Bridge.defOrder c)
+    (hm : ∀ n d dflt, (n, Member.field d dflt) ∈ c.allFields → wfDecl d = true) :
+    wfDecl (c.toStruct ord acc) = true := by
+  have hd : (Bridge.defOrder c).Nodup := by
+    unfold Bridge.defOrder Bridge.fieldDecls
+    exact List.Nodup.sublist (c01_memberDecls_keys_sublist c.allFields) hk
+  simp only [ClassDef.toStruct, wfDecl, Bool.and_eq_true]
+  refine ⟨⟨?_, ?_⟩, ?_⟩
+  · rw [c01_strNodup_iff, c01_orderBy_names]
+    exact (c01_sigOrder_nodup c ord hd).filter _
+  · rw [List.all_eq_true]
+    intro n hn
+    rw [List.contains_iff_mem]
+    exact (c14_mem_toStruct_names c ord n).mpr (hreq n hn)
+  · apply c01_wfFields_of_all
+    intro p hp
+    have := (c14_mem_toStruct_fields c ord p).mp hp
+    have hmem : p ∈ Bridge.fieldDecls c := by
+      obtain ⟨n, d⟩ := p
+      exact lookup_mem this
+    exact c01_memberDecls_wf c.allFields hm p hmem
+
+/-- **C01 for classes as the class-definition model records them** (Sem/Define.lean → Sem/DefineBridge.lean): whatever
+    `cls(**kw)` returns for a class record `c` - any definition history, any inheritance - is, up to the class's Constants,
+    a well-formed instance of the declaration the record denotes -/
+theorem bridge_instantiate_sound (O : Oracles) (c : ClassDef) (ord : List String) (kw : List (String × PyVal))
+    (x : PyVal) (hw : wfDecl (c.toStruct ord [c.name]) = true) (h : instantiateOrd O c ord kw = .ok x) :
+    ∃ x0, x = addConstants c.constants x0 ∧ wellFormed O (c.toStruct ord [c.name]) x0 = true := by
+  unfold instantiateOrd at h
+  split at h; · cases h
+  split at h; · cases h
+  split at h; · cases h
+  split at h; · cases h
+  rcases bindE_eq_ok h with ⟨x0, h0, h1⟩
+  cases h1
+  exact ⟨x0, rfl, construct_sound O _ kw x0 hw h0⟩
+
+/-- … unconditionally for the records `StructMeta.__new__` leaves behind -/
+theorem bridge_instantiate_sound_uncond (O : Oracles) (c : ClassDef) (ord : List String) (kw : List (String × PyVal))
+    (x : PyVal) (hk : KeysNodup c.allFields) (hreq : ∀ n ∈ c.sig.req, n ∈ Bridge.defOrder c)
+    (hm : ∀ n d dflt, (n, Member.field d dflt) ∈ c.allFields → wfDecl d = true)
+    (h : instantiateOrd O c ord kw = .ok x) :
+    ∃ x0, x = addConstants c.constants x0 ∧ wellFormed O (c.toStruct ord [c.name]) x0 = true :=
+  bridge_instantiate_sound O c ord kw x (bridge_wfDecl c ord [c.name] hk hreq hm) h
 
 /-! ### non-vacuity -/
 
